@@ -39,6 +39,7 @@ func genFile(rng *rand.Rand, noHeader bool, kinds string, maxBlocks int) *file {
 		opts := pbfgen.Opts{MinBlocks: 1, MaxBlocks: maxBlocks, MaxGroups: 2, MaxItems: 3, MaxTags: 2, MaxRefs: 3, MaxMembers: 3,
 			ExtremePct: -1, NoHeader: noHeader, Kinds: kinds}
 		d := pbfgen.RandomFile(rand.New(rand.NewSource(seed)), opts)
+		insertEmpty(rng, d)
 		n := pbfrun.Renumber(d)
 		if n > 40 {
 			continue
@@ -63,10 +64,25 @@ func singleKindBlocks(rng *rand.Rand, noHeader bool, nBlocks int) *file {
 		}
 		d.Blocks = append(d.Blocks, one.Blocks...)
 	}
+	insertEmpty(rng, d)
 	pbfrun.Renumber(d)
 	f := &file{seed: -1, desc: d}
 	f.data, f.frames = pbfgen.Encode(d)
 	return f
+}
+
+// insertEmpty: every other file gets an intact EMPTY block (zero-byte payload; zlib with raw_size 0
+// or raw) at a random position: it is taken like any other block and moves both offsets
+func insertEmpty(rng *rand.Rand, d *pbfgen.FileDesc) {
+	if rng.Intn(2) != 0 {
+		return
+	}
+	b := &pbfgen.Block{OmitStringTable: true}
+	b.Zlib = rng.Intn(2) == 0
+	at := rng.Intn(len(d.Blocks) + 1)
+	d.Blocks = append(d.Blocks, nil)
+	copy(d.Blocks[at+1:], d.Blocks[at:])
+	d.Blocks[at] = b
 }
 
 func eqToks(a, b []uint64) bool {
@@ -79,6 +95,86 @@ func eqToks(a, b []uint64) bool {
 		}
 	}
 	return true
+}
+
+func eqInts(a, b []int64) bool {
+	if len(a) != len(b) {
+		return false
+	}
+	for i := range a {
+		if a[i] != b[i] {
+			return false
+		}
+	}
+	return true
+}
+
+// sharedCase: one ReadSeeker serves the first scanner and, after Close + Seek(offset), the
+// restarted one (kind 3).  run = k_lo k_hi fsb resumed rerr in_flight short.
+func sharedCase(w *wire.Writer, r *pbfrun.Runner, f *file, procs int) (*wire.Case, error) {
+	skip := [3]bool{}
+	fds := pbfrun.Describe(f.desc, f.data, f.frames, skip, nil)
+	all := allObjs(fds)
+	units := make([]int, len(all)+1)
+	for i := range units {
+		units[i] = i
+	}
+	obs, err := r.Run(pbfrun.Job{Data: f.data, Procs: procs, Mode: "shared", Units: units})
+	if err != nil {
+		return nil, err
+	}
+	type srun struct {
+		Lo, Hi   int
+		FSB      int64
+		Resumed  []uint64
+		RErr     int
+		InFlight bool
+		Short    bool
+	}
+	c := &wire.Case{Class: "shared_reader"}
+	var runs []srun
+	for i := range obs {
+		o := &obs[i]
+		if o.Skipped {
+			break
+		}
+		if o.Crash || o.Hang {
+			c.OracleFail = fmt.Sprintf("stop %d on a shared reader: crash or hang: %s", o.Unit, o.CrashMsg)
+			runs = append(runs, srun{Lo: o.Unit, Hi: o.Unit, FSB: -1, RErr: 2, Short: true})
+			continue
+		}
+		sr := srun{o.Unit, o.Unit, o.FSB[0], o.Resumed, o.ResumedErr, o.InFlight, o.StopShort}
+		if c.OracleFail == "" && o.InFlight {
+			c.OracleFail = fmt.Sprintf("stop after %d objects: a Read of the closed scanner was still in progress when Close returned (the reader is about to be reused for the restart)", o.Unit)
+		}
+		k := o.Unit
+		if c.OracleFail == "" {
+			dup := len(o.Resumed) + k - len(all)
+			if !(o.ResumedErr == 0 && dup >= 0 && dup <= k && eqToks(all[k-dup:], o.Resumed)) {
+				c.OracleFail = fmt.Sprintf("stop after %d of %d objects, Close, Seek(%d) on the SAME reader: restarted scan returned %d objects (err class %d): elements lost or corrupted",
+					k, len(all), o.FSB[0], len(o.Resumed), o.ResumedErr)
+			}
+		}
+		if n := len(runs); n > 0 && runs[n-1].Hi+1 == sr.Lo && runs[n-1].FSB == sr.FSB && eqToks(runs[n-1].Resumed, sr.Resumed) &&
+			runs[n-1].RErr == sr.RErr && runs[n-1].InFlight == sr.InFlight && runs[n-1].Short == sr.Short {
+			runs[n-1].Hi = sr.Hi
+		} else {
+			runs = append(runs, sr)
+		}
+	}
+	c.Int(3).Int(int64(procs))
+	pbfrun.EmitFrames(c, fds)
+	c.Len(len(runs))
+	for _, s := range runs {
+		c.Int(int64(s.Lo)).Int(int64(s.Hi)).Int(s.FSB)
+		pbfrun.EmitToks(c, s.Resumed)
+		c.Int(int64(s.RErr)).Bool(s.InFlight).Bool(s.Short)
+	}
+	c.Desc = map[string]interface{}{"kind": "stop at every k, Close, Seek(offset) and restart on the SAME ReadSeeker (slow reads)",
+		"file_seed": f.seed, "procs": procs, "size": len(f.data), "n_objects": len(all), "runs": runs, "file": f.desc}
+	c.Trivial = len(all) == 0
+	w.Stats["shared:positions"] += len(units)
+	return c, nil
 }
 
 func allObjs(fds []pbfrun.FrameDesc) []uint64 {
@@ -168,6 +264,7 @@ type stopRun struct {
 	FSB, PFSB   int64
 	FSB2, PFSB2 int64 // read again after the scan was stopped (Close for even k, cancel for odd k)
 	Resumed     []uint64
+	RFSB, RPFSB []int64 // offsets reported by the restarted scanner after each of its objects
 	RErr        int
 	PrevResumed []uint64
 	PErr        int
@@ -203,7 +300,7 @@ func stopsCase(w *wire.Writer, r *pbfrun.Runner, f *file, procs int, skip [3]boo
 			runs = append(runs, stopRun{Lo: o.Unit, Hi: o.Unit, FSB: -1, PFSB: -1, FSB2: -1, PFSB2: -1, RErr: 2, PErr: 2, Short: true, Crash: how})
 			continue
 		}
-		sr := stopRun{o.Unit, o.Unit, o.FSB[0], o.PFSB[0], o.FSB[1], o.PFSB[1], o.Resumed, o.ResumedErr, o.PrevResumed, o.PrevResumedErr, o.StopShort, ""}
+		sr := stopRun{o.Unit, o.Unit, o.FSB[0], o.PFSB[0], o.FSB[1], o.PFSB[1], o.Resumed, o.ResumedFSB, o.ResumedPFSB, o.ResumedErr, o.PrevResumed, o.PrevResumedErr, o.StopShort, ""}
 		if c.OracleFail == "" && (sr.FSB2 != sr.FSB || sr.PFSB2 != sr.PFSB) {
 			c.OracleFail = fmt.Sprintf("stop after %d objects: offsets %d/%d before and %d/%d after the scan was stopped (Close for even k, cancel for odd k)",
 				o.Unit, sr.FSB, sr.PFSB, sr.FSB2, sr.PFSB2)
@@ -211,6 +308,7 @@ func stopsCase(w *wire.Writer, r *pbfrun.Runner, f *file, procs int, skip [3]boo
 		if n := len(runs); n > 0 && runs[n-1].Hi+1 == sr.Lo && runs[n-1].FSB == sr.FSB && runs[n-1].PFSB == sr.PFSB &&
 			runs[n-1].FSB2 == sr.FSB2 && runs[n-1].PFSB2 == sr.PFSB2 &&
 			eqToks(runs[n-1].Resumed, sr.Resumed) && eqToks(runs[n-1].PrevResumed, sr.PrevResumed) &&
+			eqInts(runs[n-1].RFSB, sr.RFSB) && eqInts(runs[n-1].RPFSB, sr.RPFSB) &&
 			runs[n-1].RErr == sr.RErr && runs[n-1].PErr == sr.PErr && runs[n-1].Short == sr.Short && runs[n-1].Crash == "" {
 			runs[n-1].Hi = sr.Hi
 		} else {
@@ -233,6 +331,8 @@ func stopsCase(w *wire.Writer, r *pbfrun.Runner, f *file, procs int, skip [3]boo
 	for _, s := range runs {
 		c.Int(int64(s.Lo)).Int(int64(s.Hi)).Int(s.FSB).Int(s.PFSB).Int(s.FSB2).Int(s.PFSB2)
 		pbfrun.EmitToks(c, s.Resumed)
+		c.Ints(s.RFSB)
+		c.Ints(s.RPFSB)
 		c.Int(int64(s.RErr))
 		pbfrun.EmitToks(c, s.PrevResumed)
 		c.Int(int64(s.PErr))
@@ -315,6 +415,14 @@ func main() {
 				w.Count(fmt.Sprintf("procs=%d", p))
 				w.Count(fmt.Sprintf("skip=%v", skip))
 			}
+		}
+		// the same reader object reused for the restart (a few files: reads are slowed down)
+		if i%5 == 0 && len(f.desc.Blocks) >= 3 {
+			c, err := sharedCase(w, r, f, procsList[(i/5)%3])
+			if err != nil {
+				fail(err)
+			}
+			w.Add(c)
 		}
 		// more decoders than the channel budget (10/procs = 0: unbuffered channels), also for the
 		// resumed scanners
